@@ -10,6 +10,13 @@ trap 'git -C /repo checkout -- . ; git -C /repo clean -fdq' EXIT
 for p in "$src"/r*.diff; do
   [ -f "$p" ] || continue
   n=$(basename "$p")
+  if [ -n "${RF_FAST:-}" ]; then
+    git -C /repo apply "$p" 2>/dev/null || { echo "$n: SKIPPED (does-not-apply)"; continue; }
+    out=$("$here/bin/chfcheck" -property "$props" -tier quick -evidence-dir none 2>&1); code=$?
+    git -C /repo checkout -- . ; git -C /repo clean -fdq
+    if [ $code -eq 0 ]; then echo "$n: silent (ok)"; else echo "$n: ALARM exit=$code"; echo "$out" | grep -E "^  violation|CHECKER-BROKEN|^note" | cut -c1-330 | head -12; fi
+    continue
+  fi
   wt=$(mktemp -d /tmp/rfcheck.XXXXXX); rmdir "$wt"
   git -C /repo worktree add --detach "$wt" HEAD >/dev/null 2>&1
   st="ok"
